@@ -157,7 +157,7 @@ package boltz
 //@   nosafety
 //@   modifies *, ocCnt, ocFn, ocRecv, cxN, cxWho, cxPhase, cxCtx, cxPersist, edDone
 //@   callpre[every-constraint-is-told-before-the-links-are-cleaned] cleanupLinks@1: arg1 == id && (!holderFailed[arg2] ==> cxN >= old(cxN) + len(store.Indexer.constraints) && cxSegment(cxN, store.Indexer.constraints, len(store.Indexer.constraints), 3, sel(cxCtx, cxN - 1)))
-//@   callpre[before-delete-with-a-context-for-this-row] ProcessBeforeDelete@1: str(recv.RowId) == id && recv.Ctx == ctx && recv.Indexer == store.Indexer
+//@   callpre[before-delete-with-a-context-for-this-row] ProcessBeforeDelete@1: !recv.IsCreate && str(recv.RowId) == id && recv.Ctx == ctx && recv.Indexer == store.Indexer
 //@   lensures[then-every-link-collection-is-told] errHolder != nil && !holderFailed[errHolder] ==> forallStr(k, has(store.links, k) ==> edDone[store.links[k]]) && forallStr(k, has(store.refCountedLinks, k) ==> edDone[store.refCountedLinks[k]])
 //@   lensures[before-delete-for-every-constraint] indexingContext != nil && !holderFailed[indexingContext.ErrHolder] ==> cxN >= old(cxN) + len(store.Indexer.constraints) && cxSegment(cxN, store.Indexer.constraints, len(store.Indexer.constraints), 3, ref(indexingContext)) && str(indexingContext.RowId) == id && indexingContext.Ctx == ctx
 //@   lensures[holder] errHolder.Err != nil ==> result1 != nil
